@@ -441,7 +441,12 @@ int __printf(void (*printchar_handler)(void *d, int c),
             while (isdigit(c))
                 c = *++format;
         }
-        width = MAX(width, 0);
+        /* a negative width (through *) is the - flag and a positive width */
+        if (width < 0)
+        {
+            ops |= OPS_FLAG_LEFT_ALIGN;
+            width = -width;
+        }
 
         /* get precision */
         ops |= *format == '.' ? OPS_PREC_IS_GIVEN : 0;
